@@ -13,7 +13,7 @@ ASSUMPTIONS = __import__('harness.c06', fromlist=['x']).ASSUMPTIONS + [
     'conflicting _default declarations are outside the claim: the last declaration wins silently (DESIGN.md section 7); the model reproduces this',
 ]
 IMPORTS, CHECK_FN, BAD_TERM = wire.IMPORTS, wire.CHECK_FN, wire.BAD_TERM
-render, stat_key, nontrivial, model_output = wire.render, wire.stat_key, wire.nontrivial, wire.model_output
+stat_key, nontrivial, model_output = wire.stat_key, wire.nontrivial, wire.model_output
 
 
 def generate(seed, tier, enlarged=False):
@@ -23,6 +23,8 @@ def generate(seed, tier, enlarged=False):
         n *= 3
     wire.GLOBDICT_WEIGHT[0] = 2
     cases = wire.gen_cases(rng, n, ['gen'], 3 if tier == 'quick' else 4)
+    # Composite.initial_state() of the same composites, compared with Model/CompState.v: one twin case each
+    cases += [dict(c, kind='comp') for c in cases if c['kind'] == 'gen']
     # corpus: known finding K9 (a glob child named only by the initial state is built without the sub-topology)
     cases.insert(0, {'kind': 'gen', 'procs': [{'parent': [], 'name': 'p0', 'schema': {'$node': {'out': False, 'c': [['pb', {'$node': {'out': False, 'c': [['*', {'$node': {'out': False, 'c': [['w', {'$var': {'default': -3, 'value': None, 'units': None}}], ['z', {'$var': {'default': 0, 'value': None, 'units': None}}]]}}]]}}], ['pd', {'$node': {'out': False, 'c': [['w', {'$var': {'default': 0, 'value': None, 'units': None}}], ['y', {'$var': {'default': 1, 'value': None, 'units': None}}], ['z', {'$var': {'default': 5, 'value': None, 'units': None}}]]}}]]}}, 'topo': [['pb', {'$dict': {'path': None, 'c': [['*', {'$dict': {'path': ['ga'], 'c': [['w', {'$path': ['z']}], ['z', {'$path': ['w']}]]}}]]}}], ['pd', {'$dict': {'path': None, 'c': [['w', {'$path': ['sc', 'sc', 'x']}], ['y', {'$path': ['sc', 'sa', 'w']}], ['z', {'$path': ['sa', 'sa', 'x']}]]}}]]}], 'init': {'sc': {'sc': {'x': 63}}, 'sa': {'sa': {'x': 40}}, 'ga': {'k3': {'w': 179}}}, 'i': 0})
     # malformed stream: a second process redeclares a variable of the first with another _value / _units
@@ -125,6 +127,17 @@ def run_composite(c):
         owns.append(own)
         d[p['name']] = Owning({'schema': wire.py_schema(p['schema']), 'own': own})
         t[p['name']] = {k: wire.py_topo(x) for k, x in p['topo']}
+    # the order in which _get_composite_state_recur visits the processes: at every level the iteration order of
+    # set(processes.keys() | steps.keys()), replicated here with the same expression on the same dicts
+    order = []
+
+    def visit(d, path):
+        for key in set(d.keys() | {}.keys()):
+            if isinstance(d[key], dict):
+                visit(d[key], path + (key,))
+            else:
+                order.append(list(path + (key,)))
+    visit(processes, ())
     state0 = copy.deepcopy(c['init'])
     comp = Composite({'processes': processes, 'topology': topology, 'state': copy.deepcopy(state0)})
     first = comp.initial_state()
@@ -137,20 +150,50 @@ def run_composite(c):
     again = comp.initial_state()
     default = comp.default_state()
     store = comp.generate_store()
-    return {'owns': owns, 'first': first, 'again': again, 'override_seen': all(
+    return {'owns': owns, 'order': order, 'first': first, 'again': again, 'override_seen': all(
                 with_override.get(k) == v for k, v in override.items()),
             'state_kept': comp.state == state0, 'default': default,
             'store_values': wire.dump_values(store)}
 
 
 def run_impl(c):
-    ob = wire.run_impl(c)
-    if c['kind'] == 'gen' and not c.get('malformed') and 'ok' in ob:
+    ob = wire.run_impl(dict(c, kind='gen') if c['kind'] == 'comp' else c)
+    if c['kind'] == 'comp' and 'ok' in ob:
         try:
             ob['comp'] = run_composite(c)
         except Exception as e:
             ob['comp'] = {'err': type(e).__name__ + ':' + str(e)[:160]}
     return ob
+
+
+def render(c, ob):
+    if c['kind'] == 'comp':
+        return render_composite(c, ob)        # None (not sent to Coq) when generate_state itself rejects the composite
+    return wire.render(c, ob)
+
+
+def render_composite(c, ob):
+    """(WCompInit processes-in-visiting-order state observed-initial_state)"""
+    from harness.common import clist, cpair, cZ
+    co = ob.get('comp')
+    if not co or 'err' in co:
+        return None
+    byname = {tuple(p['parent']) + (p['name'],): (p, own) for p, own in zip(c['procs'], co['owns'])}
+
+    def ut(d):
+        if isinstance(d, dict):
+            return '(UD %s)' % clist([cpair(wire.key(k), ut(v)) for k, v in d.items()])
+        return '(UV %s)' % cZ(d)
+
+    def ul(d):
+        return clist([cpair(wire.key(k), ut(v)) for k, v in d.items()])
+    cps = []
+    for path in co['order']:
+        p, own = byname[tuple(path)]
+        cps.append('{| cp_parent := %s; cp_own := %s; cp_topo := %s |}' % (
+            clist([wire.key(k) for k in p['parent']]), ul(own),
+            clist([cpair(wire.r_pkey(k), wire.r_topo(x)) for k, x in p['topo']])))
+    return '(WCompInit %s %s (Ok %s))' % (clist(cps), ul(c['init']), ut(co['first']))
 
 
 def composite_oracle(c, ob):
@@ -217,7 +260,8 @@ def oracle(c, ob, rng):
         return msgs
     if 'ok' not in ob:
         return msgs
-    msgs.extend(composite_oracle(c, ob))
+    if c['kind'] == 'comp':
+        return composite_oracle(c, ob)
     try:
         store = wire.build_store(c['procs'], c['init'])
     except Exception:
